@@ -51,8 +51,10 @@ structure St where
   saved : Option DB
   objs : Nat → Option Obj            -- identity map
   new : Nat → Option (Int × Bool)    -- session.new: value, application reference
+  fresh : Nat → Bool                 -- SessionTransaction._new (a WeakKeyDictionary): the instance
+                                     -- at k was inserted by this transaction and is still alive
 
-def St.init : St := ⟨fun _ => none, none, fun _ => none, fun _ => none⟩
+def St.init : St := ⟨fun _ => none, none, fun _ => none, fun _ => none, fun _ => false⟩
 
 inductive Op
   | get (k : Nat)
@@ -72,7 +74,7 @@ inductive Out
   | done
   | val (v : Option Int)     -- get: value | None
   | num (n : Nat)
-  | integrity
+  | integrity        -- a flush failed: IntegrityError / StaleDataError / ObjectDeletedError
 deriving DecidableEq, Repr
 
 /-- an object the Session itself keeps alive -/
@@ -82,7 +84,11 @@ def strong (o : Obj) : Bool := o.mod || o.del
 def collect (st : St) : St :=
   { st with objs := fun k => match st.objs k with
                              | some o => if o.app || strong o then some o else none
-                             | none => none }
+                             | none => none,
+            -- the transaction only remembers "inserted here" for instances that are alive
+            fresh := fun k => st.fresh k && (match st.objs k with
+                                             | some o => o.app || strong o
+                                             | none => false) }
 
 def anyBelow (n : Nat) (f : Nat → Bool) : Bool := (List.range n).any f
 
@@ -97,14 +103,16 @@ def dupAt (st : St) (k : Nat) : Bool := (st.new k).isSome && (st.db k).isSome
 
 def expiredObj (o : Obj) : Obj := { o with val := none, mod := false, del := false }
 
-/-- ROLLBACK: pending objects are expunged, objects inserted in this transaction too
-    (their row is gone again), the others are expired -/
+/-- ROLLBACK: pending objects are expunged, and so are the instances this transaction
+    inserted — those it still knows (`fresh`).  Every other instance is expired and stays:
+    an instance that was *re-loaded* after the inserted one had been garbage collected is
+    not known to the transaction and survives as a phantom whose row is gone. -/
 def rolledBack (st : St) : St :=
   { db := st.saved.getD st.db, saved := none,
-    objs := fun k => match st.objs k, (st.saved.getD st.db) k with
-                     | some o, some _ => some (expiredObj o)
-                     | _, _ => none,
-    new := fun _ => none }
+    objs := fun k => match st.objs k with
+                     | some o => if st.fresh k then none else some (expiredObj o)
+                     | none => none,
+    new := fun _ => none, fresh := fun _ => false }
 
 def flushRow (nw : Option (Int × Bool)) (o : Option Obj) (row : Option Int) : Option Int :=
   match nw, o with
@@ -120,16 +128,22 @@ def flushObj (nw : Option (Int × Bool)) (o : Option Obj) : Option Obj :=
   | none, some o => if o.del then none else some { o with mod := false }
   | none, none => none
 
-/-- `none`: IntegrityError (duplicate primary key) -/
+/-- UPDATE / DELETE of an instance whose row does not exist (a phantom): StaleDataError or
+    ObjectDeletedError -/
+def goneAt (st : St) (k : Nat) : Bool :=
+  (st.new k).isNone && strongOpt (st.objs k) && (st.db k).isNone
+
+/-- `none`: the flush failed (duplicate primary key, or a phantom) -/
 def doFlush (c : Cfg) (st : St) : Option St :=
   if !hasWork c st then some st
-  else if anyBelow c.n (dupAt st) then none
+  else if anyBelow c.n (dupAt st) || anyBelow c.n (goneAt st) then none
   else some { db := fun k => if k < c.n then flushRow (st.new k) (st.objs k) (st.db k) else st.db k,
               saved := match st.saved with
                        | some s => some s
                        | none => some st.db,
               objs := fun k => if k < c.n then flushObj (st.new k) (st.objs k) else st.objs k,
-              new := fun k => if k < c.n then none else st.new k }
+              new := fun k => if k < c.n then none else st.new k,
+              fresh := fun k => st.fresh k || (decide (k < c.n) && (st.new k).isSome) }
 
 /-! ### operations on one primary key: (pending entry, identity-map entry, row) ↦ new
 entries and the output -/
@@ -211,7 +225,7 @@ def step (c : Cfg) (st : St) : Op → St × Out
     match doFlush c st with
     | none => (rolledBack st, .integrity)
     | some st1 =>
-      ({ st1 with saved := none,
+      ({ st1 with saved := none, fresh := fun _ => false,
                   objs := if c.eoc then (fun k => (st1.objs k).map (fun o => { o with val := none, mod := false })) else st1.objs }, .done)
   | .rollback => (rolledBack st, .done)
   | .len => (st, .num ((List.range c.n).filter (fun k => (st.objs k).isSome)).length)
